@@ -84,7 +84,7 @@ def route_worker(rt):
             raise PathCut('sink')
         H.ex.on_sign = on_sign
     try:
-        H, paths, path = sweep.run_route(ir, rt, budget_s=200, extra=extra, max_paths=60000)
+        H, paths, path = sweep.run_route(ir, rt, budget_s=600, extra=extra, max_paths=60000)
     except Unsupported as e:
         out['inconclusive'] = str(e); return out
     if paths is None: out['inconclusive'] = 'no handler body'; return out
